@@ -17,20 +17,17 @@ inductive Effect where
   | delete (uid : Nat)
   deriving Repr, DecidableEq, Inhabited
 
-def Store.insertAll (s : Store) : List Obj → Store × Option Nat
-  | [] => (s, none)
-  | o :: os =>
-    let (s1, u) := s.insert (fun n => { o with uid := n })
-    match Store.insertAll s1 os with
-    | (s2, some last) => (s2, some last)
-    | (s2, none) => (s2, some u)
+def Store.insertAll (s : Store) : List Obj → Store
+  | [] => s
+  | o :: os => Store.insertAll (s.insert (fun n => { o with uid := n })).1 os
 
 def applyEffect (e : Engine) : Effect → Engine
   | .none => e
   | .insert os =>
-    match e.store.insertAll os with
-    | (s, some last) => { e with store := s, placeholder := some (toString last) }
-    | (s, none) => { e with store := s }
+    { e with store := e.store.insertAll os,
+             -- the placeholder is the identifier of the last object inserted
+             placeholder := if os.isEmpty then e.placeholder
+                            else some (toString (e.store.nextUid + os.length - 1)) }
   | .update o' => { e with store := e.store.update o'.uid (fun _ => o') }
   | .delete u => { e with store := e.store.delete u }
 
@@ -289,8 +286,10 @@ def filterOne (c : Ctx) (o : Obj) (t : DateTrack) (a : TAttr) : R FilterStep := 
         pure (.pass t')
       | _ => ierr "no .value"
     else
-      -- `if value != attribute`: a primitive object never equals a Python value
-      pure .fail
+      -- generic branch `value.value != attribute` (reached for Sensitive only)
+      match a.value, got with
+      | .bool v, .single (.bool x) => ok (v == x)
+      | _, _ => ierr "no .value"
 
 /-- the per-object loop over the filter attributes (with `break`) -/
 def filterObj (c : Ctx) (o : Obj) : DateTrack → List TAttr → R (Bool × DateTrack)
@@ -603,10 +602,7 @@ def opModifyAttribute (c : Ctx) (e : Engine) (uid : Option String) (attr current
 def deletedAttr (existing : List TAttr) (idx : Int) : R (Option TAttr) :=
   if existing.length > 0 then
     if idx == 0 then pure existing[0]?
-    else if idx < existing.length then
-      (if idx ≥ 0 then pure existing[idx.toNat]?
-       else if (existing.length : Int) + idx ≥ 0 then pure existing[((existing.length : Int) + idx).toNat]?
-       else ierr "list index out of range")
+    else if 0 ≤ idx && idx < existing.length then pure existing[idx.toNat]?
     else kerr Rsn.itemNotFound "Could not locate the attribute instance with the specified index"
   else pure none
 
